@@ -104,7 +104,15 @@ def convert(t, var_names, assms, to_real, ctx):
                 body = z3.And(z3_v >= 0, body) if ctx is None else z3.And(z3_v >= 0, body, ctx)
             return z3.Exists(z3_v, body)
         elif t.is_number():
-            return t.dest_number()
+            # A z3 numeral of the sort of the term: Python numbers would be combined by Python's
+            # own arithmetic (2 / 10 is a float, branches of If become integers).
+            val, T = t.dest_number(), t.get_type()
+            if T == RealType:
+                return z3.RealVal(str(val), ctx)
+            elif T == NatType or T == IntType:
+                return z3.IntVal(int(val), ctx)
+            else:
+                raise Z3Exception("convert: unsupported number " + repr(t))
         elif t.is_implies():
             return z3.Implies(rec(t.arg1), rec(t.arg))
         elif t.is_equals():
